@@ -250,6 +250,29 @@ func pr_Load(st *teststorage.TestStorage, metric string, series []pr_Series) err
 	return app.Commit()
 }
 
+// pr_Wide wraps a Queryable so that it ignores the time bounds and select hints it is given and
+// returns every stored sample of the matching series. Storage may legitimately do that (the hints
+// are "up to implementation ... if used at all", DisableTrimming documents that results "may
+// contain samples outside the queried time range", block storage works at chunk granularity), so
+// the engine itself has to enforce lookback and window edges.
+func pr_Wide(q storage.Queryable) storage.Queryable { return pr_wideQ{q} }
+
+type pr_wideQ struct{ q storage.Queryable }
+
+func (w pr_wideQ) Querier(_, _ int64) (storage.Querier, error) {
+	q, err := w.q.Querier(math.MinInt64, math.MaxInt64)
+	if err != nil {
+		return nil, err
+	}
+	return pr_wideQuerier{q}, nil
+}
+
+type pr_wideQuerier struct{ storage.Querier }
+
+func (w pr_wideQuerier) Select(ctx context.Context, sortSeries bool, _ *storage.SelectHints, ms ...*labels.Matcher) storage.SeriesSet {
+	return w.Querier.Select(ctx, sortSeries, nil, ms...)
+}
+
 type pr_Eng = *promql.Engine
 type pr_Stor = storage.Queryable
 
@@ -419,9 +442,238 @@ func pr_SamePoints(a, b []pr_Point) bool {
 	return true
 }
 
+// pr_HashPoints is a cheap order-sensitive hash of a point list (for distinct-outcome counting).
+func pr_HashPoints(ps []pr_Point) uint64 {
+	h := uint64(14695981039346656037)
+	mix := func(x uint64) {
+		h ^= x
+		h *= 1099511628211
+		h ^= h >> 29
+	}
+	for _, p := range ps {
+		mix(uint64(p.T))
+		mix(math.Float64bits(p.F))
+		if p.H {
+			mix(1)
+		}
+	}
+	return h
+}
+
 func pr_SampleToPoint(t int64, x pr_Sample) pr_Point {
 	if x.K == pr_H {
 		return pr_Point{T: t, H: true, F: x.F, S: 2 * x.F}
 	}
 	return pr_Point{T: t, F: x.F}
+}
+
+// ---------------------------------------------------------------------------------------------
+// Reference semantics of the counter / delta functions (functions.md: rate, increase, delta,
+// irate, idelta, resets, changes; property C30: extrapolation towards the window boundaries
+// limited by 1.1 x the average sample interval and by the counter's zero point)
+// ---------------------------------------------------------------------------------------------
+
+// pr_Outcome is a reference verdict for one float result: the value is V; where the statement
+// leaves a choice (input exactly on a documented limit) Alts lists the other acceptable values.
+type pr_Outcome struct {
+	Flags   int // pr_Fl* bits: which documented branches the reference took
+	Present bool
+	Hist    bool // a histogram result is expected (value not modelled)
+	V       float64
+	Alts    []float64 // further acceptable values (inputs exactly on a documented limit)
+}
+
+// Accepts reports whether got is (within relative tolerance tol) one of the acceptable values.
+func (o pr_Outcome) Accepts(got, tol float64) bool {
+	if pr_CloseFloat(o.V, got, tol) {
+		return true
+	}
+	for _, a := range o.Alts {
+		if pr_CloseFloat(a, got, tol) {
+			return true
+		}
+	}
+	return false
+}
+
+const (
+	pr_FlStartLimited = 1  // first sample too far from the window start: half an interval
+	pr_FlEndLimited   = 2  // last sample too far from the window end: half an interval
+	pr_FlZeroClamp    = 4  // extrapolation stopped at the counter's zero point
+	pr_FlReset        = 8  // counter reset corrected
+	pr_FlOnLimit      = 16 // a distance equals 1.1 x average interval exactly
+	pr_FlToStart      = 32 // extrapolated all the way to the window start
+	pr_FlToEnd        = 64 // extrapolated all the way to the window end
+)
+
+// pr_onlyFloats reports whether every sample of the window is a float.
+func pr_onlyFloats(w []pr_Sample) bool {
+	for _, x := range w {
+		if x.K != pr_F {
+			return false
+		}
+	}
+	return true
+}
+
+func pr_onlyHists(w []pr_Sample) bool {
+	for _, x := range w {
+		if x.K != pr_H {
+			return false
+		}
+	}
+	return len(w) > 0
+}
+
+// pr_extrapolate applies the documented extrapolation to the raw difference `delta` of the window
+// w (>= 2 float samples) of the range (start, end]. inclStart/inclEnd choose, for "distance to
+// the boundary equals the limit exactly", which side of the limit is taken at either boundary.
+func pr_extrapolate(w []pr_Sample, start, end int64, delta float64, isCounter, isRate, inclStart, inclEnd bool) (float64, int) {
+	flags := 0
+	n := len(w)
+	first, last := w[0], w[n-1]
+	toStart := float64(first.T-start) / 1000
+	toEnd := float64(end-last.T) / 1000
+	sampled := float64(last.T-first.T) / 1000
+	avg := sampled / float64(n-1)
+	// "close enough to the boundary" = at most 1.1 x the average interval away; exact comparison
+	// in integers: d vs 1.1*(last-first)/(n-1)  <=>  10*(n-1)*d vs 11*(last-first)
+	beyond := func(dms int64, inclusive bool) bool {
+		l, r := 10*int64(n-1)*dms, 11*(last.T-first.T)
+		if l == r {
+			flags |= pr_FlOnLimit
+			return inclusive
+		}
+		return l > r
+	}
+	// Too far from the boundary: extrapolate only half an average interval.
+	if beyond(first.T-start, inclStart) {
+		toStart = avg / 2
+		flags |= pr_FlStartLimited
+	} else {
+		flags |= pr_FlToStart
+	}
+	// A counter cannot be negative: never extrapolate before its zero point.
+	if isCounter && delta > 0 && first.F >= 0 {
+		toZero := sampled * (first.F / delta)
+		if toZero < toStart {
+			toStart = toZero
+			flags |= pr_FlZeroClamp
+		}
+	}
+	if beyond(end-last.T, inclEnd) {
+		toEnd = avg / 2
+		flags |= pr_FlEndLimited
+	} else {
+		flags |= pr_FlToEnd
+	}
+	factor := (sampled + toStart + toEnd) / sampled
+	if isRate {
+		factor /= float64(end-start) / 1000
+	}
+	return delta * factor, flags
+}
+
+// pr_Rate is rate (isCounter,isRate), increase (isCounter,!isRate) or delta (!isCounter,!isRate)
+// over the window w = non-stale samples in (start, end].
+func pr_Rate(w []pr_Sample, start, end int64, isCounter, isRate bool) pr_Outcome {
+	if len(w) < 2 {
+		return pr_Outcome{}
+	}
+	if !pr_onlyFloats(w) {
+		if pr_onlyHists(w) {
+			return pr_Outcome{Present: true, Hist: true}
+		}
+		return pr_Outcome{} // float/histogram mix: omitted
+	}
+	delta := w[len(w)-1].F - w[0].F
+	fl := 0
+	if isCounter {
+		// breaks in monotonicity are counter resets: the counter restarted from zero
+		for i := 1; i < len(w); i++ {
+			if w[i].F < w[i-1].F {
+				delta += w[i-1].F
+				fl |= pr_FlReset
+			}
+		}
+	}
+	out := pr_Outcome{Present: true}
+	for i := 0; i < 4; i++ {
+		v, f := pr_extrapolate(w, start, end, delta, isCounter, isRate, i&1 == 0, i&2 == 0)
+		out.Flags |= f
+		if i == 0 {
+			out.V = v
+		} else if f&pr_FlOnLimit != 0 && !pr_SameFloat(v, out.V) {
+			dup := false
+			for _, a := range out.Alts {
+				dup = dup || pr_SameFloat(a, v)
+			}
+			if !dup {
+				out.Alts = append(out.Alts, v)
+			}
+		}
+	}
+	out.Flags |= fl
+	return out
+}
+
+// pr_Instantaneous is irate (isRate) or idelta: based on the last two samples of the window.
+func pr_Instantaneous(w []pr_Sample, isRate bool) pr_Outcome {
+	if len(w) < 2 {
+		return pr_Outcome{}
+	}
+	prev, last := w[len(w)-2], w[len(w)-1]
+	if prev.K != last.K {
+		return pr_Outcome{} // float/histogram mix in the last two samples: omitted
+	}
+	if last.K == pr_H {
+		return pr_Outcome{Present: true, Hist: true}
+	}
+	var v float64
+	if isRate && last.F < prev.F {
+		v = last.F // counter reset: the counter restarted from zero
+	} else {
+		v = last.F - prev.F
+	}
+	if isRate {
+		v /= float64(last.T-prev.T) / 1000
+	}
+	return pr_Outcome{Present: true, V: v}
+}
+
+// pr_Resets counts counter resets between consecutive samples of the window; pr_Changes counts
+// value changes. A float next to a histogram counts as both. NaN followed by NaN is left open for
+// changes (lo..hi): the documentation does not say whether that is a change.
+func pr_Resets(w []pr_Sample) (int, bool) {
+	if len(w) == 0 {
+		return 0, false
+	}
+	n := 0
+	for i := 1; i < len(w); i++ {
+		a, b := w[i-1], w[i]
+		if a.K != b.K || b.F < a.F {
+			n++
+		}
+	}
+	return n, true
+}
+
+func pr_Changes(w []pr_Sample) (lo, hi int, ok bool) {
+	if len(w) == 0 {
+		return 0, 0, false
+	}
+	for i := 1; i < len(w); i++ {
+		a, b := w[i-1], w[i]
+		switch {
+		case a.K != b.K:
+			lo++
+			hi++
+		case math.IsNaN(a.F) && math.IsNaN(b.F):
+			hi++
+		case a.F != b.F:
+			lo++
+			hi++
+		}
+	}
+	return lo, hi, true
 }
